@@ -104,7 +104,10 @@ type NilV struct{}
 type OpaqueV struct {
 	T   types.Type
 	Why string
+	ID  int // identity of an unknown value produced by a contract call (0 = none); equal IDs denote the same value
 }
+
+var opaqueSeq int
 
 // TupleV: multiple results
 type TupleV struct{ Vs []Value }
